@@ -525,12 +525,16 @@ func dualCheck(prop, part string, ops []string) verifsim.Check[duSc] {
 				case "findprov":
 					seen := map[peer.ID]bool{}
 					n := 0
-					for p := range d.FindProvidersAsync(ctx, c, sc.Count) {
+					hung := false
+					for p := range verifsim.Bounded(d.FindProvidersAsync(ctx, c, sc.Count), 3*time.Hour, &hung) {
 						if seen[p.ID] {
 							res.Fail("findprov-no-repeat", "C15/findprov/repeat", "provider yielded twice")
 						}
 						seen[p.ID] = true
 						n++
+					}
+					if hung {
+						res.Fail("channel-closed", "C15/findprov/channel-not-closed", "the provider channel was not closed within 3 h of virtual time")
 					}
 					named := map[peer.ID]bool{}
 					for _, sm := range []*verifnet.Sim{wan.sim, lan.sim} {
@@ -570,8 +574,12 @@ func dualCheck(prop, part string, ops []string) verifsim.Check[duSc] {
 					var stream [][]byte
 					ch, serr := d.SearchValue(ctx, key, dht.Quorum(0))
 					if serr == nil {
-						for v := range ch {
+						hung := false
+						for v := range verifsim.Bounded(ch, 3*time.Hour, &hung) {
 							stream = append(stream, v)
+						}
+						if hung {
+							res.Fail("channel-closed", "C15/searchvalue/channel-not-closed", "the value channel was not closed within 3 h of virtual time")
 						}
 					}
 					rank := func(v []byte) int { r, _, _ := duParse(v); return r }
